@@ -14,6 +14,13 @@ LEVEL_NOTE = ("Per-run certificates, not a proof about the C++: Lee's sweep, inV
               "among polygonal obstacles bends only at obstacle vertices. Segment penalty > 0: only the upper bound is certified "
               "(the oracle's witness path is verified obstacle-free and its cost length+penalty*bends bounds the optimum from "
               "above, so a 'not-minimal' SPECFAIL is rigorous); optimality of the oracle path itself is compared, not certified. "
+              "A 'not-minimal' failure at penalty > 0 is classified against libavoid's OWN search space (dumped visibility "
+              "graph, (vertex, previous vertex) states, validateBendPoint and the cost() bend count modelled in Lean): the "
+              "optimum over its admissible routes is enclosed by a potential + witness certificate checked by "
+              "Check.OwnGraph.checkOwn (Props/C04Own.checkOwn_sound); dearer than that = search-not-minimal (strict), else the "
+              "known pruned-graph finding. In the corner classes the abstract A* loop of Model/AStar.lean (optimal under "
+              "consistency: Props/C05AStar.search_optimal) is run on the dumped polyline problem and its DONE list is compared "
+              "with the real expansion order (DebugHandler tap; equal-f ties excepted). "
               "That the driver's explicit graph is the spec graph is by construction (specGraph; edge soundness proved, "
               "completeness of the pair enumeration not proved).")
 TECHNIQUE = "Lean 4 theorems (weak duality, certificate checker soundness, sqrt enclosures) + per-run verified shortest-path certificates on libavoid outputs"
@@ -27,6 +34,12 @@ RULE = ("scenes: 1-8 (thorough <=20) separated convex obstacles (gap >= 1) in gr
         "the source-target line + bystanders, blockers removed/moved in random order, then rectangles added back across the "
         "route), edit-history-random (grid scenes) and edit-history-add (a small rectangle is ADDED, or an existing one MOVED, "
         "across exactly one chosen segment - first / middle / last / the only one - of the current route, one per transaction). "
+        "Corner classes (penalty > 0, Lee, both directions routed, A* expansion order compared with the Lean model): "
+        "corner-through-pen (rectangles and endpoints on a coarse grid, kept if the oracle optimum passes straight through an "
+        "obstacle corner) and corner-chain-pen (constructed: target T, corner v of a rectangle next to it and corner p of a "
+        "second rectangle exactly aligned on a grid line that only grazes both, source in the shadow of the second rectangle "
+        "where the way round its other side reaches v earlier but pays a bend there, 1-4 rectangles supplying competing "
+        "one-bend routes of intermediate cost, 0-2 random ones: a queued (vertex, previous vertex) state is improved in place). "
         "Non-trivial: some route has >= 3 points.")
 TRUSTED_BASE = ["Lean 4.33 kernel", "axioms: propext, Classical.choice, Quot.sound", "Lean compiler for the driver",
                 "harness + generator + hex-float import", "driver glue (parsing, graph assembly from specGraph/edgesFrom)"]
